@@ -27,7 +27,7 @@ def reset_violation(r):
 
 def run(ctx):
     ctx.level = "proof"
-    proved = vlib.prove(ctx, ["Properties_C09.v"], facts=["cred", "base64", "credsrc"])
+    proved = vlib.prove(ctx, ["Properties_C09.v"], facts=["cred", "base64", "credsrc", "cfun"])
     ctx.log("proofs:", "ok" if proved else "BROKEN: " + getattr(ctx, "broken_obligation", "?"))
     ctx.cov["rule"] = ("failing decode requests of every error class (armor, version, cipher/MAC/zip codes, each truncated "
                        "outer field, IV/tag/ciphertext bit flips, all 256 values of the last ciphertext byte, duplicated / "
